@@ -74,17 +74,19 @@ type Update struct {
 		ConvertDeleteClusters([]*envoy_cluster.Cluster)
 		ConvertAddOrUpdateRouters([]*envoy_route.RouteConfiguration)
 	}
-	cl           *peers.XClient
-	ups          []*peers.XUpstream
-	reqN         int
-	epochs       []uEpoch // model snapshots at op boundaries, for the traffic oracle
-	lisAddr      string
-	connAt       time.Duration
-	xdsDelivered map[string]*envoy_cluster.Cluster // clusters the (simulated) discovery service has delivered and not withdrawn
-	rejectedUpdates  int  // listener updates that must be refused (and change nothing)
-	rejectedAccepted bool // ... one of them was accepted
-	lIdle        map[string]string                 // listener -> connection_idle_timeout as last configured through an update ("" = none)
-	lFilters     map[string]string                 // listener -> network filter chain as last configured through an update ("verif_noop:t1,proxy")
+	cl               *peers.XClient
+	ups              []*peers.XUpstream
+	reqN             int
+	epochs           []uEpoch // model snapshots at op boundaries, for the traffic oracle
+	lisAddr          string
+	connAt           time.Duration
+	xdsHeavy         bool
+	xdsWithdrawn     map[string]*envoy_cluster.Cluster // withdrawn by the (simulated) cluster discovery service at some point
+	xdsDelivered     map[string]*envoy_cluster.Cluster // clusters the (simulated) discovery service has delivered and not withdrawn
+	rejectedUpdates  int                               // listener updates that must be refused (and change nothing)
+	rejectedAccepted bool                              // ... one of them was accepted
+	lIdle            map[string]string                 // listener -> connection_idle_timeout as last configured through an update ("" = none)
+	lFilters         map[string]string                 // listener -> network filter chain as last configured through an update ("verif_noop:t1,proxy")
 }
 
 // uEpoch: a configuration and the interval during which a request may legitimately observe it
@@ -346,6 +348,7 @@ func (w *Update) Setup() error {
 
 	// ---- workload: operations one after another, traffic in between ----
 	w.nOps = 3 + ch.Pick("params", "nops", 10)
+	w.xdsHeavy = ch.Chance("params", "xdsheavy", 1, 4)
 	s.After(5*time.Millisecond, "op", w.nextOp)
 	w.cl = peers.NewXClient(s, w.H, peers.CodecFor("bolt"), "cl0")
 	for i, n := 0, 2+ch.Pick("params", "nreqs", 10); i < n; i++ {
@@ -400,6 +403,11 @@ func (w *Update) nextOp() {
 	adapter := cluster.GetClusterMngAdapterInstance()
 	rm := router.GetRoutersMangerInstance()
 	kind := pickFrom(ch, "work", "op", []string{"router.full", "route.add", "route.removeall", "cluster.update", "cluster.updatehosts", "cluster.del", "hosts.update", "hosts.append", "hosts.del", "xds.endpoints", "dump", "dump", "listener.update", "listener.add", "listener.del", "xds.cluster.update", "xds.cluster.del", "xds.router", "listener.update.rejected", "route.add.invalid", "router.full.invalid", "invalid"})
+	if w.xdsHeavy && ch.Chance("work", "xdsop", 2, 3) {
+		// (a quarter of the runs dwell on the cluster discovery service: deliveries, withdrawals, repeated
+		// withdrawals, with deletions through the manager in between)
+		kind = pickFrom(ch, "work", "xdsopkind", []string{"xds.cluster.update", "xds.cluster.update", "xds.cluster.update", "xds.cluster.del", "xds.cluster.del", "cluster.del", "xds.endpoints", "dump"})
+	}
 	var run func()
 	desc := kind
 	m := &w.M
@@ -634,7 +642,7 @@ func (w *Update) nextOp() {
 		ln := &v2.Listener{}
 		lj := mustJSON(J{"name": "l0", "address": "127.0.0.1:2999", "bind_port": true,
 			"stream_filters": []J{{"type": "verif_scripted", "config": J{"name": "fx", "phase": 0, "send": true}}},
-			"filter_chains": []J{{"filters": []J{{"type": "proxy", "config": J{"downstream_protocol": "X", "upstream_protocol": "X", "router_config_name": "r1", "extend_config": J{"sub_protocol": "bolt"}}}}}}})
+			"filter_chains":  []J{{"filters": []J{{"type": "proxy", "config": J{"downstream_protocol": "X", "upstream_protocol": "X", "router_config_name": "r1", "extend_config": J{"sub_protocol": "bolt"}}}}}}})
 		if err := json.Unmarshal(lj, ln); err != nil {
 			panic(err)
 		}
@@ -706,9 +714,72 @@ func (w *Update) nextOp() {
 				m.Clusters[name] = &mCluster{LB: "LB_ROUNDROBIN"}
 			}
 		} else {
-			run = func() { w.cvt.ConvertDeleteClusters([]*envoy_cluster.Cluster{xc}) }
+			// ... together with (drawn) others it delivered: one removal batch. A cluster of the batch may be
+			// gone already (deleted through the manager meanwhile); the others go all the same
+			batch := []*envoy_cluster.Cluster{xc}
+			var others []string
+			for n := range w.xdsDelivered {
+				others = append(others, n)
+			}
+			sort.Strings(others)
+			for _, n := range others {
+				if ch.Bool("work", "xdsdelalso") {
+					o := w.xdsDelivered[n]
+					if o.GetType() == envoy_cluster.Cluster_STATIC {
+						s.Faults["w:xds_static_cluster_withdrawn"]++
+					}
+					if ch.Bool("work", "xdsdelfront") {
+						batch = append([]*envoy_cluster.Cluster{o}, batch...)
+					} else {
+						batch = append(batch, o)
+					}
+					delete(w.xdsDelivered, n)
+					if m.Clusters[n] == nil {
+						w.Stats["xds_cluster_del_batch_with_absent_cluster"]++
+					}
+					delete(m.Clusters, n)
+					desc += " +" + n
+				}
+			}
+			// ... and (drawn) one it has withdrawn before: a repeated removal
+			if len(w.xdsWithdrawn) > 0 && ch.Bool("work", "xdsdelagain") {
+				var again []string
+				for n := range w.xdsWithdrawn {
+					if n != name {
+						again = append(again, n)
+					}
+				}
+				sort.Strings(again)
+				if len(again) > 0 {
+					n := again[ch.Pick("work", "xdsdelagainwhich", len(again))]
+					if w.xdsDelivered[n] == nil {
+						o := w.xdsWithdrawn[n]
+						if m.Clusters[n] == nil {
+							w.Stats["xds_cluster_del_batch_with_absent_cluster"]++
+						} else if o.GetType() == envoy_cluster.Cluster_STATIC {
+							s.Faults["w:xds_static_cluster_withdrawn"]++
+						}
+						if ch.Bool("work", "xdsdelfront") {
+							batch = append([]*envoy_cluster.Cluster{o}, batch...)
+						} else {
+							batch = append(batch, o)
+						}
+						delete(m.Clusters, n)
+						desc += " +" + n + "(again)"
+					}
+				}
+			}
+			if w.xdsWithdrawn == nil {
+				w.xdsWithdrawn = map[string]*envoy_cluster.Cluster{}
+			}
+			for _, o := range batch {
+				w.xdsWithdrawn[o.Name] = o
+			}
+			run = func() { w.cvt.ConvertDeleteClusters(batch) }
 			if m.Clusters[name] != nil {
 				w.Stats["xds_cluster_del_static"] += map[bool]int{true: 1}[static]
+			} else if len(batch) > 1 {
+				w.Stats["xds_cluster_del_batch_with_absent_cluster"]++
 			}
 			delete(m.Clusters, name) // the cluster discovery service no longer lists it
 		}
@@ -1088,6 +1159,14 @@ func (w *Update) dumpAll() {
 	s := w.S
 	before, _ := configmanager.InheritMosnconfig()
 	queries := []string{"", "mosnconfig", "allrouters", "allclusters", "alllisteners", "router=r0", "cluster=cA", "cluster=cB", "cluster=cC", "cluster=cD", "listener=ltls", "listener=ltls2", "listener=l0", "nosuchkey=1"}
+	// in a drawn order (a dump may change what a later dump shows), and not always all of them
+	for i := len(queries) - 1; i > 0; i-- {
+		j := s.Ch.Pick("work", "dumporder", i+1)
+		queries[i], queries[j] = queries[j], queries[i]
+	}
+	if s.Ch.Bool("work", "dumpfew") {
+		queries = queries[:1+s.Ch.Pick("work", "dumpfewn", 3)]
+	}
 	for _, q := range queries {
 		rec := httptest.NewRecorder()
 		u := "/api/v1/config_dump"
